@@ -123,6 +123,29 @@ def check_input(O, S, leafmap):
                     return ("thl_at_inf", f"general solver at hgt = inf, policy {policy}, costs {A.costs_to_json(costs)}: returns "
                                           f"{[(sorted(g[0].items(), key=str), g[1]) for g in got][:2]}, expected exactly the LCA "
                                           f"mapping {sorted(want.items())} at cost {wantc}"), True
+    # the LCA reconciliation as it is handed on BY NAME: a partially labelled input (the last ancestor of each tree already
+    # called O1 / S1, the others nameless), label_internal(), then the dictionary form - one entry per object node, the names
+    # all different, each node at the name of its LCA species
+    if len(O.internal) >= 2:
+        on = {v: ("" if O.children[v] else f"o{v}") for v in range(O.n)}
+        sn = {v: ("" if S.children[v] else f"s{v}") for v in range(S.n)}
+        on[O.internal[-1]] = "O1"
+        if S.internal:
+            sn[S.internal[-1]] = "S1"
+        inp5, onode5, snode5 = A.build_input(O, S, leafmap, (0, 1, INF, 1, 1), onames=on, snames=sn)
+        try:
+            inp5.label_internal()
+            d5 = reconcile_lca(inp5).to_dict()
+        except Exception as exc:
+            return ("exception", f"label_internal / reconcile_lca / to_dict raised {type(exc).__name__}: {exc}"), True
+        names_o = [onode5[v].name for v in range(O.n)]
+        names_s = [snode5[v].name for v in range(S.n)]
+        if len(set(names_o)) != O.n or len(set(names_s)) != S.n or not all(names_o) or not all(names_s):
+            return ("by_name", f"after label_internal the node names are {names_o} / {names_s}"), True
+        got5 = d5["object_species"]
+        want5 = {onode5[v].name: snode5[want[v]].name for v in range(O.n)}
+        if got5 != want5:
+            return ("by_name", f"dictionary form maps {sorted(got5.items())}, the LCA mapping by name is {sorted(want5.items())}"), True
     # the same input read back from its dictionary form (as the command-line tool builds it), zero unit costs included
     for costs in ((0, 0, 7, 5, 1), (0, 5, 1, 0, 1), (0, 2, 3, 4, 0)):
         inp3, _, _ = A.build_input(O, S, leafmap, costs)
